@@ -400,7 +400,9 @@ def blocks(intervals, amplitudes=None, name=None):
     v = [0]
     if amplitudes is None:
         amplitudes = itertools.cycle([1])
-    for _t, a in zip(intervals, amplitudes):
+    # The step function below lets later knots overwrite earlier ones, so the
+    # blocks have to be laid down in order of onset.
+    for _t, a in sorted(zip(intervals, amplitudes), key=lambda ta: ta[0][0]):
         t += list(_t)
         v += [a, 0]
     t.append(np.inf)
